@@ -90,7 +90,7 @@ SPEC = dict(
     runs=dict(
         quick=[_particles("quick", 3, 5, 1000, 250), _batch("attrs", "quick"), _batch("content", "quick"), _batch("types", "quick"),
                _batch("wild", "quick"), _batch("assembly", "quick")],
-        thorough=[_particles("thorough", 4, 6, 3000, 500, deadline=1250), _batch("attrs", "thorough"), _batch("content", "thorough"), _batch("types", "thorough"),
+        thorough=[_particles("thorough", 4, 6, 2000, 300, deadline=1250), _batch("attrs", "thorough"), _batch("content", "thorough"), _batch("types", "thorough"),
                   _batch("wild", "thorough"), _batch("assembly", "thorough")],
     ),
     manifest=dict(
